@@ -187,3 +187,18 @@ package base
 //@   modifies cnt.unwrittenCount, cnt.unwrittenLength, mval[ref(cnt.countMetric)], mval[ref(cnt.lengthMetric)]
 //@   ensures[flush-conserves-the-totals] mval[ref(cnt.countMetric)] == old(mval[ref(cnt.countMetric)] + cnt.unwrittenCount) && mval[ref(cnt.lengthMetric)] == old(mval[ref(cnt.lengthMetric)] + cnt.unwrittenLength)
 //@        && cnt.unwrittenCount == 0 && cnt.unwrittenLength == 0
+
+// per-output stream / chunk counters (C19): one stream adds its length, one chunk adds one and its length
+//@ func (pcounter *LogProcessCounterSet) CountStream(outputIndex int, stream LogStream)
+//@   property C19
+//@   requires pcounter != nil && 0 <= outputIndex && outputIndex < len(pcounter.serializedLengthTotal) && pcounter.serializedLengthTotal[outputIndex].unwrittenValue < 4611686018427387904
+//@   modifies pcounter.serializedLengthTotal[outputIndex]
+//@   ensures[stream-length-added] pcounter.serializedLengthTotal[outputIndex].unwrittenValue == old(pcounter.serializedLengthTotal[outputIndex].unwrittenValue) + len(stream)
+//@        && pcounter.serializedLengthTotal[outputIndex].metric == old(pcounter.serializedLengthTotal[outputIndex].metric)
+//@ func (pcounter *LogProcessCounterSet) CountChunk(outputIndex int, chunk *LogChunk)
+//@   property C19
+//@   requires pcounter != nil && chunk != nil && 0 <= outputIndex && outputIndex < len(pcounter.chunksCountTotal) && outputIndex < len(pcounter.chunksLengthTotal)
+//@   requires pcounter.chunksCountTotal[outputIndex].unwrittenValue < 4611686018427387904 && pcounter.chunksLengthTotal[outputIndex].unwrittenValue < 4611686018427387904 && ref(pcounter.chunksCountTotal) != ref(pcounter.chunksLengthTotal)
+//@   modifies pcounter.chunksCountTotal[outputIndex], pcounter.chunksLengthTotal[outputIndex]
+//@   ensures[one-chunk-and-its-length] pcounter.chunksCountTotal[outputIndex].unwrittenValue == old(pcounter.chunksCountTotal[outputIndex].unwrittenValue) + 1
+//@        && pcounter.chunksLengthTotal[outputIndex].unwrittenValue == old(pcounter.chunksLengthTotal[outputIndex].unwrittenValue) + len(chunk.Data)
